@@ -10,10 +10,12 @@
 // to wait. Further classes: stalled peer (stalled_test.go), late-response storm + blocked-layer watchdog (storm_test.go),
 // identical payloads (twins_test.go), Connection.Broadcast on a hub with 1-6 peers (bcast_test.go), shapes of the caller's
 // context incl. deadlines (ctx_test.go: the only place where elapsed time is bounded - generous upper bounds, confirmed
-// 3 of 3 times). See /verif/notes/C17.md.
+// 3 of 3 times), payload sizes 0 bytes .. 4 MiB as a dimension of the ordinary classes and a node that serves 8-100 slow
+// inbound requests while it issues its own (load_test.go). See /verif/notes/C17.md.
 package c17
 
 import (
+	"bytes"
 	"context"
 	"encoding/json"
 	"errors"
@@ -114,6 +116,18 @@ type callPlan struct {
 	Ctx   string `json:"ctx,omitempty"`
 	CtxUs int    `json:"ctx_us,omitempty"`
 	Resp  string `json:"responder,omitempty"`
+	// payload-size dimension (load_test.go): Sized = request data of exactly ReqSize bytes and response data of exactly
+	// RespSize bytes (header + NUL + deterministic padding; 0 and 1 byte: no header at all). Unsized calls send their
+	// header only (a few dozen bytes), as before.
+	Sized    bool `json:"sized,omitempty"`
+	ReqSize  int  `json:"request_bytes,omitempty"`
+	RespSize int  `json:"response_bytes,omitempty"`
+	// bidirectional-load class (load_test.go): Nest > 0 = the handler that serves this call issues call Nest-1 (a call of
+	// the responder node, marked Nested: it is not run by a worker) before it sleeps and answers; WaitBusy > 0 = the call
+	// starts only once that many handlers are running on its own node (cap loadGateCap).
+	Nest     int  `json:"handler_issues_call,omitempty"`
+	Nested   bool `json:"issued_by_a_handler,omitempty"`
+	WaitBusy int  `json:"starts_when_handlers_running,omitempty"`
 }
 
 type unsolPlan struct {
@@ -140,6 +154,10 @@ type workload struct {
 	Peers    []peerPlan    `json:"peers,omitempty"`
 	Disturb  []disturbPlan `json:"disturb,omitempty"`
 	dupsLate bool          // known duplicate-deadlock: duplicates are sent only after the call returned
+	// bidirectional-load class (load_test.go): node 0 serves Load.K concurrent slow inbound requests while it issues its
+	// own; NodeT = response timeout per node in ms (0 = TimeoutMs)
+	Load  *loadPlan `json:"load,omitempty"`
+	NodeT []int     `json:"node_timeout_ms,omitempty"`
 }
 
 // ---- per-case state fed by handler, schedule points and logger ----
@@ -177,6 +195,10 @@ type attState struct {
 	lateUnknown bool
 	lateConc    bool
 	heldReg     bool
+	// load_test.go: own clock at the return of the after-send callback / when the handler returned its reply; handlers
+	// running on the REQUESTER's node when the handler returned the reply
+	sentAt, answerAt time.Time
+	busyAtAnswer     int32
 }
 
 type callState struct {
@@ -206,6 +228,10 @@ type callState struct {
 	bPeers int
 	bRuns  map[int]int
 	cx     ctxCall // context-shape class (ctx_test.go)
+	// load_test.go: bytes sent as request data (nil = the payload string), handler-issued call started, start gate gave up
+	reqData []byte
+	started atomic.Bool
+	gateCap bool
 }
 
 type caseState struct {
@@ -267,6 +293,16 @@ type caseState struct {
 	timersChecked int
 	timersNoSend  int           // timeout-fired without a recorded after-send of that goroutine and ID, or not attributable to this case (not judged)
 	minMargin     time.Duration // smallest (elapsed - timeout) seen in this case
+	// load_test.go: identical-payload group whose requests carry 0 / 1 byte of data; requests whose data arrived altered;
+	// handlers running per node (now / maximum); gater and connection state after the case
+	tinyGroup   [2]int
+	reqAltered  []string
+	inHandNode  [maxNodes]atomic.Int32
+	maxHandNode [maxNodes]atomic.Int32
+	peersBad    []string
+	peersGone   []string
+	peers0      peerSnap
+	peers0ok    bool
 }
 
 const (
@@ -283,17 +319,22 @@ type sendRec struct {
 	at  time.Time
 	exp int64
 	own bool // sent by a goroutine that is executing a RequestFrom call of this case
+	// exp is the timeout of the requester's node set for the whole case (workload.NodeT; no liveness probe changes it)
+	fixed bool
 }
 
 // markSent: the after-send callback of goroutine g for message ID id is about to return (the engine arms its response
 // timer only afterwards).
-func (cs *caseState) markSent(g int64, id string, own bool) {
-	exp := cs.expT.Load()
+func (cs *caseState) markSent(g int64, id string, c *callState) {
+	exp, fixed := cs.expT.Load(), false
+	if c != nil && c.plan.Src < len(cs.w.NodeT) && cs.w.NodeT[c.plan.Src] > 0 {
+		exp, fixed = int64(time.Duration(cs.w.NodeT[c.plan.Src])*time.Millisecond), true
+	}
 	cs.mu.Lock()
 	if cs.sends == nil {
 		cs.sends = map[sendKey]sendRec{}
 	}
-	cs.sends[sendKey{g, id}] = sendRec{at: time.Now(), exp: exp, own: own}
+	cs.sends[sendKey{g, id}] = sendRec{at: time.Now(), exp: exp, own: c != nil, fixed: fixed}
 	cs.mu.Unlock()
 }
 
@@ -318,7 +359,7 @@ func (cs *caseState) checkTimer(g int64, id string, fired time.Time) {
 		cs.timersNoSend++
 		return
 	}
-	if r.exp < exp { // the timeout was changed between send and now (liveness probe): the smaller value is the bound
+	if r.fixed || r.exp < exp { // the timeout was changed between send and now (liveness probe): the smaller value is the bound
 		exp = r.exp
 	}
 	waited := fired.Sub(r.at)
@@ -470,7 +511,7 @@ func sched(point string, id string) {
 		cs.mu.Lock()
 		c := cs.byGid[g]
 		cs.mu.Unlock()
-		defer cs.markSent(g, id, c != nil) // last thing before the engine goes on to arm its response timer (every return below)
+		defer cs.markSent(g, id, c) // last thing before the engine goes on to arm its response timer (every return below)
 		if c == nil {
 			return
 		}
@@ -492,6 +533,7 @@ func sched(point string, id string) {
 		}
 		cs.mu.Lock()
 		a.released = true
+		a.sentAt = time.Now()
 		cs.mu.Unlock()
 	case p2p.VerifPointTimeout:
 		g := gid() // the point is reached on the requester's goroutine
@@ -724,8 +766,20 @@ func (cs *caseState) raw(from, to int, id string, tok string, isErr bool) {
 // handle is the RPC handler of every node.
 func handle(node int, w p2p.ResponseWriter, req *p2p.Request) {
 	cs := curCase()
-	parts := strings.Split(string(req.Data), "|")
-	if cs == nil || len(parts) != 3 || parts[0] != "c17" || parts[1] != strconv.FormatInt(cs.no, 10) {
+	if cs != nil && len(req.Data) <= 1 {
+		// request data of 0 / 1 byte (payload-size dimension): nothing in it names a call; such requests are the members
+		// of one identical-payload group of the case and are attributed through their message IDs (twins_test.go)
+		if g := cs.tinyGroup[len(req.Data)]; g > 0 {
+			cs.handleTwin(node, "g"+strconv.Itoa(g), w, req)
+			return
+		}
+	}
+	hdr := req.Data
+	if i := bytes.IndexByte(hdr, 0); i >= 0 { // sized request: header NUL padding
+		hdr = hdr[:i]
+	}
+	parts := strings.Split(string(hdr), "|")
+	if cs == nil || len(hdr) > 64 || len(parts) != 3 || parts[0] != "c17" || parts[1] != strconv.FormatInt(cs.no, 10) {
 		w.Write([]byte("stale"))
 		return
 	}
@@ -744,11 +798,14 @@ func handle(node int, w p2p.ResponseWriter, req *p2p.Request) {
 	}
 	cs.inHand.Add(1)
 	defer cs.inHand.Add(-1)
+	cs.handlerEnter(node)
+	defer cs.inHandNode[node].Add(-1)
 	cs.touch()
 	c := cs.calls[ci]
 	if node != c.plan.Dst {
 		cs.misrte.Add(1)
 	}
+	cs.checkRequestBytes(c, node, req)
 	a := cs.att(req.ID, c)
 	cs.mu.Lock()
 	c.handlerN++
@@ -758,6 +815,9 @@ func handle(node int, w p2p.ResponseWriter, req *p2p.Request) {
 	pl := a.plan
 	tok := tokenOf(pl.Err, c.payload, req.ID, node, k)
 	src := c.plan.Src
+	if c.plan.Nest > 0 && k == 1 { // bidirectional-load class: this handler asks a peer itself before it answers
+		cs.runNested(c)
+	}
 	if pl.DupBefore && !cs.w.dupsLate {
 		cs.mu.Lock()
 		a.rawSent++
@@ -773,12 +833,17 @@ func handle(node int, w p2p.ResponseWriter, req *p2p.Request) {
 	sleepUs(pl.LatUs)
 	if pl.Err {
 		w.Error(errors.New(tok))
+	} else if c.plan.Sized {
+		w.Write(sizedBytes(tok, c.plan.RespSize, sizeSeed(cs.no, c.idx, 1)))
 	} else {
 		w.Write([]byte(tok))
 	}
 	cs.sent.Add(1)
+	busy := cs.inHandNode[src].Load()
 	cs.mu.Lock()
-	a.answered, a.answerBeat = true, hbBeats.Load()
+	if !a.answered {
+		a.answered, a.answerBeat, a.answerAt, a.busyAtAnswer = true, hbBeats.Load(), time.Now(), busy
+	}
 	cs.mu.Unlock()
 	n := pl.DupAfter
 	if pl.DupBefore && cs.w.dupsLate {
@@ -868,6 +933,8 @@ type verdict struct {
 	tw                          twinStats  // identical-payload groups (twins_test.go)
 	bc                          bcastStats // Broadcast calls (bcast_test.go)
 	cx                          ctxStats   // context shapes (ctx_test.go)
+	sz                          sizeStats  // payload sizes (load_test.go)
+	ld                          loadStats  // bidirectional load (load_test.go)
 }
 
 func (v *verdict) add(sig, format string, a ...any) {
@@ -882,6 +949,12 @@ func (a *attState) describe() string {
 func (c *callState) describe() string {
 	var sb strings.Builder
 	fmt.Fprintf(&sb, "call %d %d->%d cancelPlanned=%v cancelled=%v returned=%v handlerRuns=%d", c.idx, c.plan.Src, c.plan.Dst, c.plan.Cancel, c.cancelled, c.returned, c.handlerN)
+	if c.plan.Sized {
+		fmt.Fprintf(&sb, " SIZED(request %d bytes, response %d bytes)", c.plan.ReqSize, c.plan.RespSize)
+	}
+	if c.plan.Nested {
+		sb.WriteString(" ISSUED-BY-A-HANDLER")
+	}
 	if c.plan.Bcast {
 		fmt.Fprintf(&sb, " BROADCAST(connected peers before the call=%d cancelledBeforeCall=%v handler runs per node=%v", c.bPeers, c.plan.CancelFirst, c.bRuns)
 		if c.returned {
@@ -889,7 +962,7 @@ func (c *callState) describe() string {
 		}
 		sb.WriteString(")")
 	} else if c.returned {
-		fmt.Fprintf(&sb, " result(data=%q err=%v)", string(c.resp.Data()), c.resp.Error())
+		fmt.Fprintf(&sb, " result(data=%s err=%v)", previewBytes(c.resp.Data()), c.resp.Error())
 	}
 	if c.plan.Ctx != "" {
 		sb.WriteString(" " + c.describeCtx())
@@ -1017,6 +1090,9 @@ func runCase(w *workload) (*verdict, error) {
 		if p.Bcast {
 			c.payload, c.bRuns = bcastPayload(cs.no, i), map[int]int{}
 		}
+		if p.Sized && p.Twin == 0 { // payload-size dimension: request data of exactly ReqSize bytes (>= 100: header NUL padding)
+			c.reqData = sizedBytes(c.payload, p.ReqSize, sizeSeed(cs.no, i, 0))
+		}
 		cs.calls = append(cs.calls, c)
 	}
 	cs.expT.Store(int64(T))
@@ -1043,6 +1119,7 @@ func runCase(w *workload) (*verdict, error) {
 		evid.R.Inconclusive("case %d: response timeout could not be set within the budget, nothing recognisable blocked; cluster dropped, case skipped", cs.no)
 		return nil, errors.New("set timeout: budget")
 	}
+	cs.peersBefore() // gater state of the cluster before the case (payload-size dimension: honest traffic earns no penalty)
 	setCase(cs)
 	defer setCase(nil)
 	if w.Holes > 0 {
@@ -1065,6 +1142,9 @@ func runCase(w *workload) (*verdict, error) {
 			g := gid()
 			<-start
 			for i := wk; i < len(w.Calls); i += w.Workers {
+				if w.Calls[i].Nested { // issued by the handler of another call (runNested)
+					continue
+				}
 				cs.runCall(g, cs.calls[i])
 			}
 		}(wk)
@@ -1088,7 +1168,15 @@ func runCase(w *workload) (*verdict, error) {
 	}
 	close(start)
 	allDone := make(chan struct{})
-	go func() { wg.Wait(); close(allDone) }()
+	go func() {
+		wg.Wait()
+		for _, c := range cs.calls { // calls issued by handlers (bidirectional-load class) that were started
+			if c.plan.Nested && c.started.Load() {
+				<-c.done
+			}
+		}
+		close(allDone)
+	}()
 
 	finished := cs.await(allDone, v, t0)
 	tMain := time.Since(t0)
@@ -1127,6 +1215,7 @@ func (cs *caseState) runCall(g int64, c *callState) {
 	c.cancel = cancel
 	cs.byGid[g] = c
 	cs.mu.Unlock()
+	cs.loadGate(c) // bidirectional-load class: not before enough handlers are running on this node
 	sleepUs(c.plan.PreUs)
 	cs.twinArrive(c)      // identical-payload group: all of its calls go together, within one wall-clock second
 	if c.plan.Ctx != "" { // context-shape class: the context is made now, its deadline counts from the start of the call
@@ -1170,7 +1259,11 @@ func (cs *caseState) runCall(g int64, c *callState) {
 		cs.mu.Unlock()
 		berr = cl.conns[c.plan.Src].Broadcast(ctx, proc, []byte(c.payload))
 	} else {
-		resp = cl.conns[c.plan.Src].RequestFrom(ctx, target, proc, []byte(c.payload))
+		data := c.reqData
+		if data == nil {
+			data = []byte(c.payload)
+		}
+		resp = cl.conns[c.plan.Src].RequestFrom(ctx, target, proc, data)
 	}
 	if d := time.Since(tc); d > 500*time.Millisecond && os.Getenv("VERIF_C17_TRACE") != "" {
 		fmt.Fprintf(os.Stderr, "  c17 slow call %d (%v): broadcast=%v unreachable=%v hole=%d cancel=%v err=%v/%v\n", c.idx, d.Round(time.Millisecond), c.plan.Bcast, c.plan.Unreach, c.plan.Hole, c.plan.Cancel, resp.Error(), berr)
@@ -1340,6 +1433,8 @@ func (cs *caseState) afterQuiescence(v *verdict) {
 	}
 	// Every Broadcast call has returned: nothing it started may stay behind.
 	cs.bcastLeftovers(v, gs)
+	// Honest traffic of whatever size: no penalty, no ban, nobody disconnected (load_test.go).
+	cs.peersAfter(v)
 }
 
 func (cs *caseState) evaluate(v *verdict, finished bool) {
@@ -1455,6 +1550,29 @@ func (cs *caseState) evaluate(v *verdict, finished bool) {
 			}
 			continue
 		}
+		var sized []byte // payload-size dimension: the whole response data; txt = its header (the token)
+		if c.plan.Sized && r.Error() == nil {
+			if c.plan.RespSize <= 1 { // a response of 0 / 1 byte names nothing: exact bytes, sender, and a handler run of this call
+				if want := sizedBytes("", c.plan.RespSize, 0); !bytes.Equal(r.Data(), want) || r.PeerID() != cs.cl.ids[c.plan.Dst] || c.handlerN == 0 {
+					v.add(sigRespBytes, "call planned with a response of %d byte(s) returned %s from %s (addressed %s; handler runs %d): %s",
+						c.plan.RespSize, previewBytes(r.Data()), r.PeerID(), cs.cl.ids[c.plan.Dst], c.handlerN, c.describe())
+					continue
+				}
+				v.sz.exact++
+				v.okN++
+				cs.judgeQuietRuns(v, c)
+				continue
+			}
+			sized = r.Data()
+			h := sized
+			if i := bytes.IndexByte(h, 0); i >= 0 {
+				h = h[:i]
+			}
+			if len(h) > 256 {
+				h = h[:256]
+			}
+			txt = string(h)
+		}
 		parts := strings.Split(txt, "|")
 		good := len(parts) == 7 && parts[1]+"|"+parts[2]+"|"+parts[3] == c.payload
 		var a *attState
@@ -1472,15 +1590,27 @@ func (cs *caseState) evaluate(v *verdict, finished bool) {
 			v.add("correlation:foreign-response", "call returned a response that is not the one produced for its own request: got %q from %s, own payload %q: %s", txt, r.PeerID(), c.payload, c.describe())
 			continue
 		}
+		if sized != nil { // the token is the call's own: every byte behind it must be what the handler wrote
+			if want := sizedBytes(txt, c.plan.RespSize, sizeSeed(cs.no, c.idx, 1)); !bytes.Equal(sized, want) {
+				v.add(sigRespBytes, "the response returned by the call carries its own token but not the bytes its handler wrote: %s: %s", diffBytes(sized, want), c.describe())
+				continue
+			}
+			v.sz.exact++
+		}
 		if r.Error() != nil {
 			v.remErrN++
 		} else {
 			v.okN++
 		}
+		if c.plan.Sized || cs.w.Load != nil {
+			cs.judgeQuietRuns(v, c)
+		}
 	}
 	cs.judgeTwins(v)
 	cs.judgeStalled(v)
 	cs.judgeCtx(v)
+	cs.judgeSizes(v)
+	cs.judgeLoad(v)
 }
 
 // ---- workload generator ----
@@ -1591,6 +1721,7 @@ func drawWorkload(t *rapid.T) *workload {
 		w.Unsol = append(w.Unsol, unsolPlan{From: from, To: to, DelayUs: rapid.IntRange(0, 2*tUs).Draw(t, "unsolDelay")})
 	}
 	addTwins(t, w, tUs/4, tUs/2, 0)
+	addSizes(t, w)
 	return w
 }
 
@@ -1639,6 +1770,8 @@ func summarize(w *workload, v *verdict) map[string]any {
 	if w.CtxClass != "" {
 		ctxSummary(m, w, v)
 	}
+	sizeSummary(m, w, v)
+	loadSummary(m, w, v)
 	k := len(w.Calls)
 	if k > 3 {
 		k = 3
@@ -1663,6 +1796,9 @@ func record(t fataler, kind string, w *workload, v *verdict) (knownHit bool) {
 	}
 	if w.CtxClass != "" { // context-shape class, see ctxLabels
 		nontrivial = ctxNontrivial(v)
+	}
+	if w.Load != nil { // bidirectional-load class, see loadLabels
+		nontrivial = loadNontrivial(v)
 	}
 	labels := []string{kind, fmt.Sprintf("conns=%d", w.NConn)}
 	if v.maxOver >= 8 {
@@ -1757,9 +1893,12 @@ func record(t fataler, kind string, w *workload, v *verdict) (knownHit bool) {
 		labels = append(labels, ctxLabels(w, v)...)
 	} else if w.Star > 0 {
 		labels = append(labels, bcastLabels(w, v)...)
+	} else if w.Load != nil {
+		labels = append(labels, loadLabels(w, v)...)
 	} else {
 		labels = append(labels, "class:race-steering")
 	}
+	labels = append(labels, sizeLabels(w, v)...)
 	if v.blocked {
 		labels = append(labels, "case:blocked-layer(goroutine-evidence)")
 	}
